@@ -273,7 +273,7 @@ Inductive gval : Type := GV (v : pyval) | GN (e : expr).
 
 Definition pa_int_of_bool (b : bool) : Z := if b then 1%Z else 0%Z.
 
-(* {"USub": neg, "UAdd": pos, "not_": not_, "Invert": inv}[type(node.op).__name__](value) *)
+(* {"USub": neg, "UAdd": pos, "Not": not_, "Invert": inv}[type(node.op).__name__](value) *)
 Definition apply_unop (op : str) (v : pyval) : outcome pyval :=
   if str_eqb op (L "USub") then
     match v with
@@ -290,7 +290,8 @@ Definition apply_unop (op : str) (v : pyval) : outcome pyval :=
     | VInt z => Ok (VInt (- z - 1)) | VBool b => Ok (VInt (- pa_int_of_bool b - 1))
     | _ => Err TypeError
     end
-  else Err KeyError.       (* the table has the key "not_"; the node class is called "Not" *)
+  else if str_eqb op (L "Not") then Ok (VBool (negb (truthy v)))     (* operator.not_ *)
+  else Err KeyError.
 
 Definition none_to_NoneStr (v : pyval) : pyval :=
   match v with VNone => VStr NoneStr | _ => v end.
@@ -411,21 +412,21 @@ Definition infer_default (p : gparam) (d0 : dval) (infer_type : bool) : outcome 
   do typ3 <- (if infer_type && fld_is_none (g_typ p) && negb (dval_in_none_types d2)
               then match dval_type_name d2 with Some n => Ok (Has n) | None => Err Unmodelled end
               else Ok (g_typ p));
-  do nq <- needs_quoting (fget typ3);
-  (* unquote / literal_eval / code-quote; the second component is the type name of an evaluated literal *)
-  do d4 <- (if nq || (match d2 with DV (VStr _) => true | _ => false end)
-            then Ok (match d2 with DV (VStr s) => DV (VStr (unquote s)) | _ => d2 end, None)
-            else match d2 with
-                 | DE e =>
-                   match lit_eval e with
-                   | Ok lv => Ok (dval_of_lval lv, Some (lval_type_name lv))
-                   | Err ValueError =>
-                     do c <- code_of e;
-                     Ok (DV (VStr (bt3 ++ paren_wrap_code c ++ bt3)), None)
-                   | Err x => Err x
-                   end
-                 | _ => Ok (d2, None)
-                 end);
+  (* an AST default is evaluated (literal_eval) or code-quoted FIRST; only otherwise the unquoting branch.
+     The second component is the type name of an evaluated literal *)
+  do d4 <- (match d2 with
+            | DE e =>
+              match lit_eval e with
+              | Ok lv => Ok (dval_of_lval lv, Some (lval_type_name lv))
+              | Err ValueError =>
+                do c <- code_of e;
+                Ok (DV (VStr (bt3 ++ paren_wrap_code c ++ bt3)), None)
+              | Err x => Err x
+              end
+            | _ =>
+              do nq <- needs_quoting (fget typ3);
+              Ok (match d2 with DV (VStr s) => DV (VStr (unquote s)) | _ => d2 end, None)
+            end);
   let '(d, tn) := d4 in
   (* typ is None and default != NoneStr -> type(default).__name__ *)
   do typ5 <- (if fld_is_none typ3 && negb (dval_is_NoneStr d)
